@@ -213,6 +213,16 @@ def check_item(item):
                     res["creplay"] += 1
                     if prob:
                         return bad("C replay: " + prob, path)
+                # every string <= 5 in every composition into chunks against the one-chunk run (the one-chunk run itself was tied to the
+                # machine above): an abandoned partial match must stay abandoned across a chunk boundary
+                xr = [c for c in reps if c < 256][:4]
+                recs, status = cp.run(cp.op_exhaust(5, xr, do_end=am.eof), timeout=60)
+                if status == "ok":
+                    x = recs[0][1]
+                    res["creplay"] += x["schedules"]
+                    if x["diffs"]:
+                        d = x["diff_details"][0]
+                        return bad("the wait depends on chunking: input %r split by mask %s gives %s, in one chunk %s" % (d["input"], bin(d["mask"]), str(d["chunked"])[:160], str(d["one_chunk"])[:160]), d["input"])
         except cbuild.BuildError as e:
             res["cbuild_failed"] = 1
     return res
@@ -269,6 +279,43 @@ def _loop_next(post):
     return "hook fired %d times for one completion" % post
 
 
+PRECEDING = [("re", ("seq", (RX["c"], U.q("[^ab]", "*")))), ("re", U.q("[^ab]", "+")), L("c"), ("re", U.q("c", "+")), ("re", ("seq", (RX["[^ab]"], U.q("c", "?")))),
+             ("re", ("alt", (("seq", (RX["c"], RX["c"])), RX["\\d"])))]
+
+
+def after_items(tier, seed):
+    """wait directly after another statement (whose accepting state may name bytes explicitly): joint exploration with the reference
+    interpreter, whose wait is the same restart automaton; only patterns that start with a or b, so that the join is unambiguous"""
+    out = []
+    for i, p in enumerate(PATTERNS):
+        r0 = U.m_core(p)
+        reps = U.reps_of((("match", p), ("match", L("c")), ("match", ("re", RX["[^ab]"]))))
+        first = {c for c in reps if not D.Dfa(r0, reps).dead(D.deriv(r0, c))}
+        if not first <= {ord("a"), ord("b")} or D.nullable(r0):
+            continue
+        for j, pre in enumerate(PRECEDING):
+            out.append(("after", (("match", pre), ("wait", p), ("hook", "h"), ("match", L("z")), ("hook", "g")), "AFTER#%d.%d" % (i, j)))
+            if (i + j) % 2 == 0:
+                out.append(("after", (("loop", None, (("match", pre), ("wait", p), ("hook", "h"))),), "AFTERLOOP#%d.%d" % (i, j)))
+    return out
+
+
+def check_after(item):
+    from checks import c01
+    _, ast, label = item
+    r = c01.check_program(dict(ast=ast, label=label, want_c=True, cap=1500, levels=[[], ["-O3"], ["-O0"]]))
+    prob = r["problems"][0] if r["problems"] else None
+    return dict(src=r["src"], argv=(prob or {}).get("argv", []), status=r["status"] if r["status"] in ("ok", "internal", "timeout") else "rejected", detail=r.get("detail", ""),
+                states=r["states"], trans=r["trans"], creplay=r["creplay"], shapes=sorted(map(repr, r["shapes"])) if not isinstance(r["shapes"], list) else r["shapes"],
+                problem=(prob["what"] if prob else None), path=(prob or {}).get("path", ""), after=True)
+
+
+def dispatch(item):
+    if item[0] == "after":
+        return check_after(item)
+    return check_item(item)
+
+
 def run(tier, seed):
     ck = Check("C16", tier, seed, "model_checking",
                rule="wait patterns x contexts; product of machine and restart automaton explored to a fixpoint; distinct = (program, (oracle phase, result code)) pairs")
@@ -282,10 +329,11 @@ def run(tier, seed):
                 if lv and tier == "quick" and ctx not in ("plain", "loop", "try_eof") and i >= len(pats):
                     continue
                 items.append((p, ctx, (len(items) % (7 if tier == "quick" else 3)) == seed % (7 if tier == "quick" else 3), tuple(lv)))
+    items += after_items(tier, seed)
     stats = dict(items=len(items), rejected=0, nullable=0, capped=0)
-    for idx, r in pmap(check_item, items, timeout=300, chunksize=4, stop=ck.enough):
+    for idx, r in pmap(dispatch, items, timeout=300, chunksize=4, stop=ck.enough):
         if "harness_error" in r or "harness_timeout" in r:
-            harness_fail("%s on %s" % (r, U.m_text(items[idx][0])))
+            harness_fail("%s on %s" % (r, items[idx][2] if items[idx][0] == "after" else U.m_text(items[idx][0])))
         if r["status"] == "nullable-pattern":
             stats["nullable"] += 1
             continue
@@ -296,7 +344,7 @@ def run(tier, seed):
             continue
         if r["status"] == "capped":
             stats["capped"] += 1
-            ck.cap(U.m_text(items[idx][0]))
+            ck.cap(items[idx][2] if items[idx][0] == "after" else U.m_text(items[idx][0]))
         ck.add(programs=1, states=r["states"], transitions=r["trans"], traces_validated_against_impl=r["creplay"], evaluations=1)
         for s in r["shapes"]:
             ck.note((idx, s))
@@ -304,7 +352,8 @@ def run(tier, seed):
             ck.sample(dict(source=r["src"], product_states=r["states"], shapes=r["shapes"][:6]))
         if r["problem"]:
             ck.violation("C16:%s:%s" % (r["problem"].split(" at ")[0][:50], sha(r["src"])[:10]), "%s | input %s | %s" % (r["problem"], r["path"], r["src"].replace("\n", " ")),
-                         dict(src=r["src"], argv=r["argv"], path=r["path"], pat=repr(items[idx][0]), ctx=items[idx][1]))
+                         dict(src=r["src"], argv=r["argv"], path=r["path"], pat=repr(items[idx][0]), ctx=items[idx][1]) if items[idx][0] != "after" else
+                         dict(src=r["src"], argv=r["argv"], path=r["path"], ast=repr(items[idx][1]), ctx="after", label=items[idx][2]))
     ck.extra.update(stats)
     ck.exhaustive = stats["capped"] == 0
     ck.assumptions += ["for an open-ended pattern (one that can still continue after matching) the wait ends when the next byte cannot continue it; end() in that situation may report FAIL or run the following statement",
@@ -314,7 +363,10 @@ def run(tier, seed):
 
 def replay(path):
     d = json.load(open(path))
-    r = check_item((eval(d["pat"]), d["ctx"], True, tuple(a for a in d["argv"] if a.startswith("-O"))))
+    if d.get("ctx") == "after":
+        r = check_after(("after", eval(d["ast"]), d.get("label", "replay")))
+    else:
+        r = check_item((eval(d["pat"]), d["ctx"], True, tuple(a for a in d["argv"] if a.startswith("-O"))))
     print(r["problem"], r["path"])
     print("REPRODUCED" if r["problem"] else "not reproduced")
     return 1 if r["problem"] else 0
